@@ -739,7 +739,7 @@ func (a *anchors) liveTables(r *report.Report) {
 		wp := p.Func("writePacket")
 		var pcalls []*ssa.Call
 		if wp != nil {
-			pcalls, _ = callsTo(f, wp)
+			pcalls = a.writePacketCalls(f)
 		}
 		domAny := func(cs []*ssa.Call, ret *ssa.Return) bool {
 			for _, c := range cs {
